@@ -515,6 +515,63 @@ func c17Publish(p *core.Prog, r *core.Report, la *core.LockAnalysis, isCtor func
 	}
 	r.Count("map publications into shared fields", n)
 	r.Floor("map publications into shared fields", n, 4)
+
+	// (a3) … and the other way round: a map that is replaced as a whole (readers take the reference under the lock and
+	// read the map after releasing it) is never changed in place through a reference read from the field, unless a
+	// lock is held at that point
+	published := map[core.FieldID]bool{}
+	for _, fn := range p.SrcFuncs() {
+		if isCtor(fn) {
+			continue
+		}
+		core.EachInstr(fn, func(in ssa.Instruction) {
+			st, ok := in.(*ssa.Store)
+			if !ok {
+				return
+			}
+			id, base, ok := core.FieldOfAddr(st.Addr)
+			if !ok || !sharedOwner(base.Type()) {
+				return
+			}
+			if _, fresh := base.(*ssa.Alloc); fresh {
+				return
+			}
+			if _, isMap := st.Val.Type().Underlying().(*types.Map); isMap {
+				published[id] = true
+			}
+		})
+	}
+	nLoads := 0
+	for _, fn := range p.SrcFuncs() {
+		if isCtor(fn) {
+			continue
+		}
+		var held map[ssa.Instruction]core.LockSet
+		core.EachInstr(fn, func(in ssa.Instruction) {
+			ld, ok := in.(*ssa.UnOp)
+			if !ok || ld.Op != token.MUL {
+				return
+			}
+			id, base, ok := core.FieldOfAddr(ld.X)
+			if !ok || !published[id] || !sharedOwner(base.Type()) {
+				return
+			}
+			nLoads++
+			if held == nil {
+				held = la.HeldAt(fn)
+			}
+			k := 0
+			for _, w := range writesThrough(p, fn, ld, 2, map[*ssa.Function]bool{}) {
+				if len(held[w]) > 0 {
+					continue // changed under a lock: not the snapshot discipline, decided by (a)
+				}
+				k++
+				r.Violate("C17.a2", fmt.Sprintf("%s|%s|in-place-write-of-snapshot#%d", id, core.FnKey(fn), k), p.Pos(w.Pos()),
+					fmt.Sprintf("the map read from %s is changed in place with no lock held, but the field is replaced as a whole elsewhere and its readers use the reference after releasing the lock: they read the map while it is written", id))
+			}
+		})
+	}
+	r.Floor("C17.a2 reads of wholesale-replaced map fields", nLoads, 4)
 }
 
 // derivesFrom reports whether the address / collection value v is reached from root through field
